@@ -197,7 +197,7 @@ logistic_impl!(multi_logistic_f32, f32, MultiLogisticRegression, [0, 0, 1, 0, 2,
 pub fn tweedie_spec() -> BuilderSpec {
     BuilderSpec {
         name: "tweedie",
-        floats: &["f64"],
+        floats: &["f64", "f32"],
         params: vec![
             // setter rustdoc (glm/hyperparams.rs:81): "`alpha` set to 0 is equivalent to unpenalized GLM" -> 0 is
             // explicitly allowed; error text (error.rs:20) "penalty should be positive"
@@ -220,7 +220,7 @@ pub fn tweedie_spec() -> BuilderSpec {
                 ],
             },
             free("max_iter", "linfa-linear/src/glm/hyperparams.rs:108 no documented range", vec![(Sym::U(0), "zero"), (Sym::U(100), "default")]),
-            free("tol", "linfa-linear/src/glm/hyperparams.rs:114 no documented range", vec![(Sym::L(1e-4), "default"), (Sym::L(0.0), "zero")]),
+            free("tol", "linfa-linear/src/glm/hyperparams.rs:114 no documented range", vec![(Sym::L(1e-4), "default"), (Sym::L(1e-2), "loose")]),
             free("fit_intercept", "linfa-linear/src/glm/hyperparams.rs:87 bool", vec![(Sym::B(true), "true"), (Sym::B(false), "false")]),
         ],
         relation: no_relation,
@@ -240,7 +240,9 @@ pub fn tweedie_spec() -> BuilderSpec {
 macro_rules! tweedie_impl {
     ($name:ident, $f:ty) => {
         fn $name(case: &Case, spec: &BuilderSpec, out: &mut Outcome) {
-            let ds = Dataset::new(xmat::<$f>(), yvec::<$f>());
+            // features scaled to [0, 0.7]: with the log link and no intercept the L-BFGS line search of the
+            // GLM does not terminate on larger features (a training problem outside this property)
+            let ds = Dataset::new(xmat::<$f>().mapv(|v| v * 0.1), yvec::<$f>());
             let make = || {
                 TweedieRegressor::<$f>::params()
                     .alpha(case.f("alpha") as $f)
